@@ -830,6 +830,19 @@ func TestReencode(t *testing.T) {
 					axes = append(axes, fmt.Sprintf("A%d;%s", i, strings.Join([]string{"x", "y", "z"}[:nv], ";")))
 				}
 				ents[a].Variants = []byte(strings.Join(axes, ", "))
+				if c.Chance("reencode.variantsGarbage", 1, 3) {
+					// a variants-value that strains the structured-header grammar instead
+					frags := []string{"\"", "\\", ";", ",", " ", "*", "a", "Accept-Language", "\"\"", "\"a;b\"", "\xc3\xa9", "\x00", "=", "9999999999999999999999", ";;", ",,", "a;\"", "\t"}
+					var sb strings.Builder
+					for i, n := 0, c.Int("reencode.variantsFrags", 1, 12); i < n; i++ {
+						sb.WriteString(frags[c.Pick("reencode.variantsFrag", len(frags))])
+					}
+					if c.Chance("reencode.variantsLong", 1, 8) {
+						sb.WriteString(strings.Repeat(c.PickStr("reencode.variantsRun", "a;", "\"", "a,", ";"), c.PickInt("reencode.variantsRunLen", 1000, 70000)))
+					}
+					ents[a].Variants = []byte(sb.String())
+					c.Fault("reencode-variants-grammar")
+				}
 				locs := ents[a].Locs
 				switch c.Pick("reencode.axesLocs", 4) {
 				case 0:
